@@ -267,44 +267,25 @@ impl<'a> BTreeReader<'a> {
     }
 
     pub fn cursor_last(&self) -> Result<Cursor<'a, MmapStorage>> {
-        let mut current_page = self.root_page;
+        let mut cursor = Cursor {
+            storage: self.storage,
+            root_page: self.root_page,
+            current_page: self.root_page,
+            current_index: 0,
+            exhausted: false,
+        };
 
-        loop {
-            let page_data = self.storage.page(current_page)?;
-            let header = PageHeader::from_bytes(page_data)?;
-
-            match header.page_type() {
-                PageType::BTreeLeaf => {
-                    let leaf = LeafNode::from_page(page_data)?;
-                    let cell_count = leaf.cell_count() as usize;
-                    if cell_count == 0 {
-                        return Ok(Cursor {
-                            storage: self.storage,
-                            root_page: self.root_page,
-                            current_page,
-                            current_index: 0,
-                            exhausted: true,
-                        });
-                    }
-                    return Ok(Cursor {
-                        storage: self.storage,
-                        root_page: self.root_page,
-                        current_page,
-                        current_index: cell_count - 1,
-                        exhausted: false,
-                    });
-                }
-                PageType::BTreeInterior => {
-                    let interior = InteriorNode::from_page(page_data)?;
-                    current_page = interior.right_child();
-                }
-                _ => bail!(
-                    "unexpected page type {:?} during cursor_last at page {}",
-                    header.page_type(),
-                    current_page
-                ),
+        // The rightmost leaf may have been emptied by deletes; the last entry is then in
+        // an earlier leaf.
+        match cursor.find_rightmost_in_subtree(self.root_page)? {
+            Some((page_no, last_index)) => {
+                cursor.current_page = page_no;
+                cursor.current_index = last_index;
             }
+            None => cursor.exhausted = true,
         }
+
+        Ok(cursor)
     }
 
     pub fn get(&self, key: &[u8]) -> Result<Option<&'a [u8]>> {
@@ -1332,44 +1313,25 @@ impl<'a, S: Storage> BTree<'a, S> {
     }
 
     pub fn cursor_last(&self) -> Result<Cursor<'_, S>> {
-        let mut current_page = self.root_page;
+        let mut cursor = Cursor {
+            storage: self.storage,
+            root_page: self.root_page,
+            current_page: self.root_page,
+            current_index: 0,
+            exhausted: false,
+        };
 
-        loop {
-            let page_data = self.storage.page(current_page)?;
-            let header = PageHeader::from_bytes(page_data)?;
-
-            match header.page_type() {
-                PageType::BTreeLeaf => {
-                    let leaf = LeafNode::from_page(page_data)?;
-                    let cell_count = leaf.cell_count() as usize;
-                    if cell_count == 0 {
-                        return Ok(Cursor {
-                            storage: self.storage,
-                            root_page: self.root_page,
-                            current_page,
-                            current_index: 0,
-                            exhausted: true,
-                        });
-                    }
-                    return Ok(Cursor {
-                        storage: self.storage,
-                        root_page: self.root_page,
-                        current_page,
-                        current_index: cell_count - 1,
-                        exhausted: false,
-                    });
-                }
-                PageType::BTreeInterior => {
-                    let interior = InteriorNode::from_page(page_data)?;
-                    current_page = interior.right_child();
-                }
-                _ => bail!(
-                    "unexpected page type {:?} during cursor_last at page {}",
-                    header.page_type(),
-                    current_page
-                ),
+        // The rightmost leaf may have been emptied by deletes; the last entry is then in
+        // an earlier leaf.
+        match cursor.find_rightmost_in_subtree(self.root_page)? {
+            Some((page_no, last_index)) => {
+                cursor.current_page = page_no;
+                cursor.current_index = last_index;
             }
+            None => cursor.exhausted = true,
         }
+
+        Ok(cursor)
     }
 }
 
@@ -1552,28 +1514,40 @@ impl<'a, S: Storage + ?Sized> Cursor<'a, S> {
                 let page_data = self.storage.page(parent_page)?;
                 let interior = InteriorNode::from_page(page_data)?;
 
-                let prev_child = if child_idx == 1 {
-                    interior.slot_at(0)?.child_page()
-                } else if child_idx > 1 {
-                    let target_idx = child_idx - 1;
-                    if target_idx < interior.cell_count() as usize {
+                // Subtrees to the left may consist of leaves emptied by deletes: keep going
+                // left (and then up) until one yields an entry.
+                for target_idx in (0..child_idx).rev() {
+                    let prev_child = if target_idx < interior.cell_count() as usize {
                         interior.slot_at(target_idx)?.child_page()
                     } else {
                         interior.right_child()
-                    }
-                } else {
-                    continue;
-                };
+                    };
 
-                return self.find_rightmost_in_subtree(prev_child);
+                    if let Some(found) = self.find_rightmost_in_subtree(prev_child)? {
+                        return Ok(Some(found));
+                    }
+                }
             }
         }
 
         Ok(None)
     }
 
-    fn find_rightmost_in_subtree(&self, mut page_no: u32) -> Result<Option<(u32, usize)>> {
-        loop {
+    /// Last entry of the subtree rooted at `page_no`, or None when every leaf below it is
+    /// empty. Children are tried right to left so leaves emptied by deletes are stepped over.
+    fn find_rightmost_in_subtree(&self, page_no: u32) -> Result<Option<(u32, usize)>> {
+        let page_count = self.storage.page_count();
+        let mut visited = 0u32;
+        let mut pending: Vec<u32> = vec![page_no];
+
+        while let Some(page_no) = pending.pop() {
+            visited += 1;
+            ensure!(
+                visited <= page_count,
+                "cycle detected below page {} during find_rightmost",
+                page_no
+            );
+
             let page_data = self.storage.page(page_no)?;
             let header = PageHeader::from_bytes(page_data)?;
 
@@ -1581,14 +1555,16 @@ impl<'a, S: Storage + ?Sized> Cursor<'a, S> {
                 PageType::BTreeLeaf => {
                     let leaf = LeafNode::from_page(page_data)?;
                     let count = leaf.cell_count() as usize;
-                    if count == 0 {
-                        return Ok(None);
+                    if count > 0 {
+                        return Ok(Some((page_no, count - 1)));
                     }
-                    return Ok(Some((page_no, count - 1)));
                 }
                 PageType::BTreeInterior => {
                     let interior = InteriorNode::from_page(page_data)?;
-                    page_no = interior.right_child();
+                    for i in 0..interior.cell_count() as usize {
+                        pending.push(interior.slot_at(i)?.child_page());
+                    }
+                    pending.push(interior.right_child());
                 }
                 _ => bail!(
                     "unexpected page type {:?} during find_rightmost at page {}",
@@ -1597,6 +1573,8 @@ impl<'a, S: Storage + ?Sized> Cursor<'a, S> {
                 ),
             }
         }
+
+        Ok(None)
     }
 }
 
